@@ -6,7 +6,7 @@
    End-to-end (decided on every run by the spec-side renderer on the implementation): the converted
    document paints the same ordered stack as the source over the structural grammar. *)
 From Coq Require Import ZArith Reals Lra List Bool Ascii String.
-From Pico Require Import Num PyStr G_geom G_transform Structure E1_affine E1_viewport E5_structure.
+From Pico Require Import Num PyStr G_geom G_transform Structure E1_affine E1_viewport E5_structure Flatten E5_flatten.
 Import ListNotations.
 Local Open Scope R_scope.
 
@@ -34,5 +34,22 @@ Theorem C02_nested_svg_without_viewbox x y w h par (own : option Aff) px py :
             mapP m (mkP px py) = match own with Some o => mapP o (mkP (px + x) (py + y)) | None => mkP (px + x) (py + y) end.
 Proof. exact (unnest_transform_no_viewbox x y w h par own px py). Qed.
 
-Definition C02_all := (C02_ctm_accumulates_parent_first, C02_use_moves_then_transforms, C02_nested_svg_viewport, C02_nested_svg_without_viewbox).
+(* document order (z-order) under flattening: whichever groups are dissolved, for trees of any depth and width the
+   leaves come out in the same order, nothing is lost or duplicated, no dissolvable group is left, and k instances of
+   a forest are k copies in place *)
+Theorem C02_flattening_keeps_painting_order (t : ftree) : flat_map leaves (flatten t) = leaves t.
+Proof. exact (flatten_keeps_order t). Qed.
+
+Theorem C02_replacing_a_group_by_its_children_keeps_order (before after : list ftree) (t : ftree) :
+  flat_map leaves (before ++ replace_el t ++ after) = flat_map leaves (before ++ t :: after).
+Proof. exact (replace_el_keeps_order before after t). Qed.
+
+Theorem C02_flattened_forest_is_flat (t : ftree) : forallb no_dissolvable (flatten t) = true.
+Proof. exact (flatten_is_flat t). Qed.
+
+Theorem C02_instances_appear_once_per_use_in_place (k : nat) (f : list ftree) :
+  flat_map leaves (repeat_forest k f) = List.concat (List.repeat (flat_map leaves f) k).
+Proof. exact (instances_in_order k f). Qed.
+
+Definition C02_all := (C02_ctm_accumulates_parent_first, C02_use_moves_then_transforms, C02_nested_svg_viewport, C02_nested_svg_without_viewbox, C02_flattening_keeps_painting_order, C02_replacing_a_group_by_its_children_keeps_order, C02_flattened_forest_is_flat, C02_instances_appear_once_per_use_in_place).
 Print Assumptions C02_all.
